@@ -771,7 +771,7 @@ def _run(ctx, rnd, quick, scratch):
     n_hist = len(cases)
 
     # 4. seeded random layouts / cuts
-    nrand = 600 if quick else 12000
+    nrand = 600 if quick else 8000
     for i in range(nrand):
         cases.append(random_case(rnd, 'server' if i % 2 == 0 else 'client'))
 
